@@ -5,6 +5,22 @@ open Driver_common
 let starts_with p s = String.length s >= String.length p && String.sub s 0 (String.length p) = p
 let after p s = String.sub s (String.length p) (String.length s - String.length p)
 
+(* faulty:<plan>   plan = "-" | <i>:err:<IO|NOENT|PNOTEXIST> | <i>:short:<k>, joined by '+' *)
+let parse_fault_plan (arg : string) : (nat * fault) list =
+  if arg = "" || arg = "-" then [] else
+    List.map (fun part ->
+        match String.split_on_char ':' part with
+        | [i; "err"; e] ->
+          let er = (match e with
+              | "IO" -> { ek = KEIO; ewrapped = false }
+              | "NOENT" -> { ek = KENOENT; ewrapped = false }
+              | "PNOTEXIST" -> { ek = KNotExist; ewrapped = true }
+              | _ -> failwith ("fault error " ^ e)) in
+          (nat_of_int (int_of_string i), FltFail er)
+        | [i; "short"; k] -> (nat_of_int (int_of_string i), FltShort (nat_of_int (int_of_string k)))
+        | _ -> failwith ("fault plan syntax: " ^ arg))
+      (String.split_on_char '+' arg)
+
 let parse_ext (id : string) (first : unit -> stack) (next : unit -> stack) (close : unit -> unit) : stack =
   if id = "ro" then (let a = first () in close (); SReadOnly a)
   else if starts_with "bp:" id then (let a = first () in close (); SBasePath (bytes_of_hex (after "bp:" id), a))
@@ -12,4 +28,5 @@ let parse_ext (id : string) (first : unit -> stack) (next : unit -> stack) (clos
   else if id = "cow" then (let a = first () in let b = next () in close (); SCow (a, b))
   else if starts_with "cache:" id then
     (let a = first () in let b = next () in close (); SCache (z_of_int (int_of_string (after "cache:" id)), a, b))
+  else if starts_with "faulty:" id then (let a = first () in close (); SFaulty (parse_fault_plan (after "faulty:" id), a))
   else failwith ("unknown stack element " ^ id)
